@@ -70,7 +70,11 @@ def last_line_no_newline(run, idx, path, lineno):
     """line `lineno` is the last line of a file kept without a final newline: deleting the lines
     below it changes its line ending, and the deleting session's deletion marker wins the line"""
     files = run.commits[idx][1]
-    return (not run.opts(path).get("final_newline", True)) and lineno == len(files.get(path, []))
+    try:
+        uid = files[path][lineno - 1][2]
+    except (KeyError, IndexError):
+        return False
+    return (not run.opts(path).get("final_newline", True)) and uid in run.was_last.get(path, set())
 
 
 def retouched_ws_only_any(run, idx, path, lineno):
@@ -113,7 +117,7 @@ def check_commit(run, idx, failures):
             sig = "note-misses-ai-line" if missing and not extra else ("note-lists-non-ai-line" if extra and not missing else "note-wrong-lines")
             if missing and not extra and all(retouched_ws_only(run, idx, p, l) for l in missing):
                 sig = "ws-only-retouch-of-committed-ai-line"
-            elif set(missing) == set(extra) and all(last_line_no_newline(run, idx, p, l) for l in missing):
+            elif all(last_line_no_newline(run, idx, p, l) for l in list(missing) + list(extra)):
                 sig = "last-line-without-newline-credited-to-session-that-deleted-below"
             failures.append((sig, {"sha": sha, "path": p, "missing": missing, "extra": extra, "line_texts": texts,
                                    "added": sorted(added.get(p, []))}))
@@ -135,7 +139,7 @@ def check_commit(run, idx, failures):
             sig = "blame-misses-ai-line" if missing and not extra else ("blame-reports-non-ai-line" if extra and not missing else "blame-wrong-lines")
             if missing and not extra and all(retouched_ws_only_any(run, idx, p, l) for l in missing):
                 sig = "ws-only-retouch-of-committed-ai-line"
-            elif set(missing) == set(extra) and all(last_line_no_newline(run, idx, p, l) for l in missing):
+            elif all(last_line_no_newline(run, idx, p, l) for l in list(missing) + list(extra)):
                 sig = "last-line-without-newline-credited-to-session-that-deleted-below"
             failures.append((sig, {"sha": sha, "path": p, "missing": missing, "extra": extra}))
 
@@ -161,6 +165,7 @@ def _run_scenario(sc):
             ncommits = len(run.commits)
             observed = [S.observed_note_lines(run.repo.note(sha)) for sha, _ in run.commits[1:]]
             sc["_observed"] = observed
+            sc["_commit_ok"] = list(run.commit_ok)
     except Exception as ex:
         failures.append(("runner-exception", {"error": repr(ex), "trace": traceback.format_exc()[-1500:]}))
         ncommits = 0
@@ -180,7 +185,7 @@ def phase_e2e(res, seeds, threads=16):
         # the content-identity model has no line endings: files kept without a final newline are left
         # to the oracle (known finding "last line without newline …")
         skip = [p for p, o in (sc.get("file_opts") or {}).items() if not o.get("final_newline", True)]
-        n, bad = S.sys_compare(sc, sc.pop("_observed"), C.run_driver, skip_paths=skip)
+        n, bad = S.sys_compare(sc, sc.pop("_observed"), C.run_driver, skip_paths=skip, commit_ok=sc.pop("_commit_ok", None))
         ncmp += n; nbad += len(bad)
         if bad and first is None:
             first = {"seed": sc["seed"], "disagreement": bad[0]}
